@@ -105,3 +105,119 @@ theorem stepFeed_active (s : State) (f : Feed) : (stepFeed s f).active = f.trips
   simp [foldl_stepTrip_active]
 
 end Gtfs.Journal
+
+namespace Gtfs.Journal
+
+/-! ### invariants of BuildJournal's state: keys distinct, each entry's UID is its key -/
+
+theorem nodup_akeys_aset {α} (k : Str) (v : α) (m : List (Str × α)) (h : (akeys m).Nodup) :
+    (akeys (aset k v m)).Nodup := by
+  rw [akeys_aset]
+  split
+  · exact h
+  · rename_i hk
+    rw [List.nodup_append]
+    refine ⟨h, by simp, ?_⟩
+    intro a ha b hb
+    simp only [List.mem_singleton] at hb
+    subst hb
+    intro hab; subst hab; exact hk ha
+
+theorem foldl_stepTrip_nodup (t : Int) (us : List RtTrip) (m : List (Str × Trip)) (a : List Str)
+    (h : (akeys m).Nodup) : (akeys (us.foldl (stepTrip t) (m, a)).1).Nodup := by
+  induction us generalizing m a with
+  | nil => simpa using h
+  | cons u us ih =>
+    simp only [List.foldl_cons, stepTrip]
+    exact ih _ _ (nodup_akeys_aset _ _ _ h)
+
+theorem stepFeed_nodup (s : State) (f : Feed) (h : (akeys s.trips).Nodup) : (akeys (stepFeed s f).trips).Nodup := by
+  unfold stepFeed
+  simp only
+  have := foldl_stepTrip_nodup f.createdAt f.trips s.trips [] h
+  have hk : ∀ (m : List (Str × Trip)) (g : Str × Trip → Str × Trip), (∀ p, (g p).1 = p.1) → akeys (m.map g) = akeys m := by
+    intro m g hg
+    simp only [akeys, List.map_map]
+    congr 1
+    funext p
+    exact hg p
+  rw [hk]
+  · exact this
+  · intro p; split <;> rfl
+
+theorem run_nodup (fs : List Feed) : (akeys (run fs).trips).Nodup := by
+  suffices H : ∀ s : State, (akeys s.trips).Nodup → (akeys (fs.foldl stepFeed s).trips).Nodup from
+    H {} (by simp [akeys])
+  induction fs with
+  | nil => intro s h; simpa using h
+  | cons f fs ih => intro s h; exact ih _ (stepFeed_nodup s f h)
+
+theorem mem_iff_alookup {α} (m : List (Str × α)) (h : (akeys m).Nodup) (k : Str) (v : α) :
+    (k, v) ∈ m ↔ alookup k m = some v := by
+  induction m with
+  | nil => simp [alookup]
+  | cons p r ih =>
+    obtain ⟨k', v'⟩ := p
+    simp only [akeys, List.map_cons, List.nodup_cons] at h
+    by_cases hk : k' == k
+    · have hk' : k' = k := by simpa using hk
+      subst hk'
+      simp only [alookup, hk, if_true, List.mem_cons, Prod.mk.injEq, true_and, Option.some.injEq]
+      constructor
+      · rintro (h1 | h1)
+        · exact h1.symm
+        · exact absurd (List.mem_map.mpr ⟨(k', v), h1, rfl⟩) h.1
+      · intro h1; exact Or.inl h1.symm
+    · have hk' : ¬ k' = k := by simpa using hk
+      have hk'' : ¬ k = k' := fun e => hk' e.symm
+      simp only [alookup, hk, Bool.false_eq_true, if_false, List.mem_cons, Prod.mk.injEq, hk'', false_and, false_or]
+      exact ih h.2
+
+theorem update_uid (tr : Trip) (u : RtTrip) (t : Int) (k : Str) (hu : uidOfTrip u = k)
+    (htr : tr.uid = k ∨ tr.assigned = false) : (tr.update u t).uid = k := by
+  unfold Trip.update
+  split
+  · rename_i h
+    rcases htr with h1 | h1
+    · exact h1
+    · simp [h1] at h
+  · exact hu
+
+theorem applyUpdates_uid (t : Int) (k : Str) (us : List RtTrip) (hus : ∀ u ∈ us, uidOfTrip u = k)
+    (o : Option Trip) (ho : ∀ tr, o = some tr → tr.uid = k) :
+    ∀ tr, applyUpdates t o us = some tr → tr.uid = k := by
+  induction us generalizing o with
+  | nil => simpa [applyUpdates] using ho
+  | cons u us ih =>
+    intro tr htr
+    simp only [applyUpdates, List.foldl_cons] at htr
+    refine ih (fun x hx => hus x (by simp [hx])) _ ?_ tr htr
+    intro tr' h'
+    cases h'
+    apply update_uid _ _ _ _ (hus u (by simp))
+    cases o with
+    | none => right; rfl
+    | some x => left; exact ho x rfl
+
+theorem stepFeed_uid (s : State) (f : Feed) (h : ∀ k tr, alookup k s.trips = some tr → tr.uid = k) :
+    ∀ k tr, alookup k (stepFeed s f).trips = some tr → tr.uid = k := by
+  intro k tr hk
+  rw [stepFeed_lookup] at hk
+  obtain ⟨tr0, h0, rfl⟩ := Option.map_eq_some_iff.mp hk
+  have := applyUpdates_uid f.createdAt k _ (by
+    intro u hu
+    have := (List.mem_filter.mp hu).2
+    simpa using this) (alookup k s.trips) (h k) tr0 h0
+  split
+  · simpa [Trip.markPast] using this
+  · exact this
+
+theorem run_uid (fs : List Feed) : ∀ k tr, alookup k (run fs).trips = some tr → tr.uid = k := by
+  suffices H : ∀ s : State, (∀ k tr, alookup k s.trips = some tr → tr.uid = k) →
+      ∀ k tr, alookup k (fs.foldl stepFeed s).trips = some tr → tr.uid = k from
+    H {} (by intro k tr h; simp [alookup] at h)
+  induction fs with
+  | nil => intro s h; simpa using h
+  | cons f fs ih => intro s h; exact ih _ (stepFeed_uid s f h)
+
+end Gtfs.Journal
